@@ -1453,7 +1453,9 @@ REQUIRED_BRANCH_FLAGS = [
     ("front:horizontal-reject:right", "N"),
 ] + [(f"{b}:{e}", vd) for b in ("front", "behind") for e in ("U", "D") for vd in "NV"] + [
     (f"front:{e}", vd) for e in ("L", "R") for vd in "NV"
-] + [(f"behind:{e}-window", vd) for e in ("L", "R") for vd in "NV"]
+] + [(f"behind:{e}-window", vd) for e in ("L", "R") for vd in "NV"] + [
+    (f"front:{e}:part-beyond-edge-in-reach", "N") for e in "UDLR"
+] + [(f"behind:{e}:part-beyond-edge-in-reach", "N") for e in "UDH"] + [(f"both-axes:{e}:part-beyond-edge-in-reach", "N") for e in "VH"]
 
 
 def classify_rod(cam_l, ang, vd, A, B, spacing):
@@ -1476,11 +1478,29 @@ def classify_rod(cam_l, ang, vd, A, B, spacing):
     piece = L / n
     cc = A[None, :] + ((np.arange(n) + 0.5) * piece)[:, None] * u[None, :]
     _, out = M.classify_balls(ang, vd, cc, 0.5 * math.sqrt(piece**2 + 2 * w * w), ANG_M, rad_m)
-    if out.all():
-        return "N", centre, F(), dims, None
     r_in = 0.5 * w * 0.85
     ni = max(1, int(L / w))
     ci = A[None, :] + (0.5 * w + np.arange(ni) * (L - w) / max(ni - 1, 1))[:, None] * u[None, :]
+    if out.all():
+        # which window edges have a part of the rod just beyond them that an erroneously widened ray
+        # window would hit: beyond that edge, but inside the other window and within visibleDistance
+        hb, hh, vb, hv = M.norm_angles(ang)
+        dd = np.linalg.norm(ci, axis=1)
+        az = np.arctan2(-ci[:, 0], ci[:, 1])
+        al = np.arcsin(np.clip(ci[:, 2] / dd, -1, 1))
+        near = dd < vd - rad_m
+        in_h = (np.abs(az) < hh - ANG_M) if hb else np.ones(len(ci), bool)
+        in_v = (np.abs(al) < hv - ANG_M) if vb else np.ones(len(ci), bool)
+        reach = set()
+        if vb and (near & in_h & (al > hv + ANG_M)).any():
+            reach.add("U")
+        if vb and (near & in_h & (al < -hv - ANG_M)).any():
+            reach.add("D")
+        if hb and (near & in_v & (az > hh + ANG_M)).any():
+            reach.add("L")
+        if hb and (near & in_v & (az < -hh - ANG_M)).any():
+            reach.add("R")
+        return "N", centre, F(), dims, reach
     inside, _ = M.classify_balls(ang, vd, ci, r_in, ANG_M, rad_m)
     dd = np.linalg.norm(ci, axis=1)
     with np.errstate(invalid="ignore"):
@@ -1533,6 +1553,17 @@ def eval_branch(payload):
             if verdict == "V" and M.classify_point(zero, np.eye(3), ang, vd, c_l, ANG_M, rad_m) != M.OUT:
                 continue  # the window logic is only reached when the centre is not visible
             branch, flags = branch_label(verts_l, box_faces, ang, vd, near, centre_vis)
+            if verdict == "N" and branch == "both-axes":
+                for e_ in ball or ():
+                    flags.add("both-axes:" + ("V" if e_ in "UD" else "H") + ":part-beyond-edge-in-reach")
+            if verdict == "N" and branch in ("front", "behind"):
+                for e_ in ball or ():
+                    if branch == "front" and f"front:{e_}" in flags:
+                        flags.add(f"front:{e_}:part-beyond-edge-in-reach")
+                    if branch == "behind" and e_ in "UD" and f"behind:{e_}" in flags:
+                        flags.add(f"behind:{e_}:part-beyond-edge-in-reach")
+                    if branch == "behind" and e_ in "LR" and "behind:no-window" not in flags:
+                        flags.add("behind:H:part-beyond-edge-in-reach")
             fresh = [f for f in flags if have.get((f, verdict), 0) < per_flag]
             if not fresh:
                 continue
@@ -1552,6 +1583,8 @@ def eval_branch(payload):
             acc.inc("branch_cases")
             exp = verdict == "V"
             label = "+".join(sorted(flags))
+            clipped = "".join(sorted(f.split(":")[1] for f in flags if f.count(":") == 1 and f.split(":")[1] in ("U", "D", "L", "R")))
+            sig_label = branch + (":" + clipped if clipped else "")
             desc = (
                 f"viewer: {describe_viewer(spec)}\ntarget: rod {fmt(dims)} from direction (az, alt, r/vd) {pts[i]} to {pts[j]} of the viewer frame, "
                 f"centre {fmt(centre)}, nearest point {near / vd:.2f} x visibleDistance; implementation branch (recomputed): {branch} [{label}]; "
@@ -1571,7 +1604,7 @@ def eval_branch(payload):
                 elif obs != exp:
                     acc.violation(
                         ("object-visibility:part-inside-not-visible" if exp else "object-visibility:outside-view-volume-reported-visible")
-                        + f":{kind}:{route}:branch:{label}",
+                        + f":{kind}:{route}:branch:{sig_label}",
                         desc + f"\nexpected visible={exp}, observed {obs} via {route}",
                         cc,
                     )
@@ -1605,10 +1638,16 @@ def eval_branch(payload):
                         acc.violation(f"visibility-query-raises:{obs.name}:{kind}:branch:{branch}", desc + f"\nraised {obs.text}", cc)
                     elif obs:
                         acc.violation(
-                            f"object-visibility:fully-occluded-reported-visible:{kind}:canSee:branch:{label}",
+                            f"object-visibility:fully-occluded-reported-visible:{kind}:canSee:branch:{sig_label}",
                             desc + "\nwith a wall hiding every cover ball that is not outside the view volume: expected visible=False, observed True",
                             cc,
                         )
+    hdeg, vdeg = (360, 180) if kind == "Point" else eff_angles(spec["ang"])
+    if hdeg > 180 and vdeg < 180:
+        for f in ("behind:U", "behind:D", "behind:U:part-beyond-edge-in-reach", "behind:D:part-beyond-edge-in-reach"):
+            for vd_ in "NV" if f.count(":") == 1 else "N":
+                if (f, vd_) not in have:
+                    raise HarnessError(f"vacuous: no rod for {f}|{vd_} with viewAngles {spec['ang']}")
     if not acc.samples:
         acc.samples.append({"viewer": describe_viewer(spec), "item": "rods per branch of the object case distinctions", "reached": sorted(f"{k[0]}|{k[1]}" for k in have)})
     return acc.out()
@@ -1750,6 +1789,24 @@ def plan(tier):
         fl = [(x, vd) for x in kpa(fposes, ANGLES_OBJ_QUICK + [(90, 20), (360, 180)]) for vd in (3.0, 10.0)]
     for (kind, mode, pos, r, ang), vd in fl:
         items.append(("far", {"spec": viewer_spec(kind, mode, pos, r, ang, vd), "tier": tier}))
+    # --- case distinctions of the object branch (rods), rotated viewers away from the origin
+    ra, rb = (40, 30, 45), (-135, -60, 120)
+    if quick:
+        bl = [
+            ("Object", "off", positions[0], ra, (200, 20), 10.0),
+            ("OrientedPoint", "off", positions[0], rb, (200, 90), 10.0),
+            ("OrientedPoint", "off", positions[0], ra, (360, 20), 3.0),
+            ("Object", "off", positions[0], rb, (360, 90), 10.0),
+            ("Object", "off", positions[0], ra, (90, 90), 10.0),
+            ("OrientedPoint", "off", positions[0], rb, (30, 20), 10.0),
+            ("OrientedPoint", "off", positions[0], (0, 0, 0), (30, 90), 3.0),
+            ("Point", "off", positions[0], (0, 0, 0), (360, 180), 10.0),
+        ]
+    else:
+        bposes = [("off", positions[0], ra), ("off", positions[1], rb), ("cam0", None, (0, -60, 120))]
+        bl = [(k, m, p_, r_, a, 3.0 if r_ == rb else 10.0) for (k, m, p_, r_, a) in kpa(bposes, ANGLES_ALL)]
+    for kind, mode, pos, r, ang, vd in bl:
+        items.append(("branch", {"spec": viewer_spec(kind, mode, pos, r, ang, vd, BRANCH_RAYS), "tier": tier}))
     return items
 
 
@@ -1802,12 +1859,12 @@ def run(ctx):
     gc.collect()
     gc.freeze()  # performance only: keeps the forked workers from copying the parent's heap page by page
     items = ctx.rotate(plan(ctx.tier))
-    items.sort(key=lambda it: {"programs": 0, "far": 1, "object": 2, "points": 3}[it[0]])  # stable: long items first
+    items.sort(key=lambda it: {"programs": 0, "branch": 1, "far": 2, "object": 3, "points": 4}[it[0]])  # stable: long items first
     tot = {}
     nsig = {}
     flags = set()
     samples = []
-    n_items = {"points": 0, "object": 0, "programs": 0, "far": 0}
+    n_items = {"points": 0, "object": 0, "programs": 0, "far": 0, "branch": 0}
     shown = {}
     cpu = {}
     for (ikind, _), r in zip(items, ctx.pmap(dispatch, items, chunksize=2)):
@@ -1857,6 +1914,11 @@ def run(ctx):
     ):
         if tot.get(k, 0) <= 0:
             raise HarnessError(f"vacuous: counter {k} is 0")
+    missing_br = [f"{f}|{vd_}" for f, vd_ in REQUIRED_BRANCH_FLAGS if f"br|{f}|{vd_}" not in flags]
+    if missing_br:
+        raise HarnessError(f"vacuous: no judged rod for the branch / window edge / verdict {missing_br}")
+    if tot.get("branch_hidden_cases", 0) <= 0:
+        raise HarnessError("vacuous: no rod whose in-volume part is hidden by a wall")
     for f in ("far|T", "far|F", "farprog|A", "farprog|R"):
         if f not in flags:
             raise HarnessError(f"vacuous: {f} never judged")
@@ -1875,6 +1937,8 @@ def run(ctx):
         + tot.get("far_object_cases", 0)
         + tot.get("long_target_cases", 0)
         + tot.get("far_programs", 0)
+        + tot.get("branch_cases", 0)
+        + tot.get("branch_hidden_cases", 0)
     )
     nontrivial = tot.get("nontrivial_orientation", 0) + tot.get("occlusion_flips", 0)
     ctx.cov.update(
@@ -1888,7 +1952,11 @@ def run(ctx):
         "+ [compiled all-constant programs per viewer] + [cheap-vs-exact geometry: walls 5-8 visibleDistances long whose centre is 1.5 / 2.8 "
         "visibleDistances from the camera (sideways, opposite, above, below, behind-and-wrapping) crossing the sight line at 0.35 visibleDistance, "
         "for point targets in front / behind and small object targets in their shadow; long box targets with centre beyond visibleDistance "
-        "and near end inside, or nearest point within visibleDistance but wholly outside the view cone]. A case is judged only when every bound is cleared by 2 deg / 5% of the distance "
+        "and near end inside, or nearest point within visibleDistance but wholly outside the view cone] + [object-branch case distinctions: all rods "
+        "between two directions of an end-point alphabet (azimuths 0, 180, +-90, +-125, +-160, each horizontal bound -12/+25 deg; altitudes 0, +-40, "
+        "+-62, each vertical bound -5/+22 deg; radii 0.5, 1.3, 2.0 visibleDistance) are classified by the reference model (all cover balls outside "
+        "=> not visible; inscribed ball inside, centre outside, dense rays => visible) and by the recomputed branch predicate of canSee; one "
+        "(thorough: three) rod per (branch, clipped window edge, verdict) is run, plus a variant with the in-volume part hidden by a wall]. A case is judged only when every bound is cleared by 2 deg / 5% of the distance "
         "and no sight line grazes an occluder. Non-trivial = judged point whose verdict changes if the viewer's orientation is ignored, "
         "or a target whose verdict is flipped by an occluder subset.",
         samples=samples,
@@ -1920,6 +1988,15 @@ def run(ctx):
             "long_target_centre_beyond_visibleDistance_but_near_part_inside": tot.get("long_target_centre_beyond_vd_but_inside", 0),
             "long_target_nearest_point_within_visibleDistance_but_wholly_outside": tot.get("long_target_near_point_within_vd_but_outside", 0),
             "programs": tot.get("far_programs", 0),
+        },
+        object_branch_cases={
+            "viewer_configs": n_items["branch"],
+            "rods_classified": tot.get("branch_rods_classified", 0),
+            "rods_run": tot.get("branch_cases", 0),
+            "in_volume_part_hidden_by_wall": tot.get("branch_hidden_cases", 0),
+            "per_branch_edge_verdict(N=not visible expected, V=visible expected)": {
+                k[len("branch|") :]: v for k, v in sorted(tot.items()) if k.startswith("branch|")
+            },
         },
         skipped_touching=tot.get("skipped_touching", 0),
         skipped_grazing=tot.get("skipped_grazing", 0),
@@ -1967,6 +2044,11 @@ def replay(ctx, case):
         r = _uncapped(eval_object, base)
         for sig, desc, c in r["viol"]:
             if c["what"] == case["what"] and list(c["subset"]) == list(case["subset"]):
+                ctx.violation(sig, desc, c)
+    elif t == "branch":
+        r = _uncapped(eval_branch, {"spec": case["spec"], "tier": case["tier"]})
+        for sig, desc, c in r["viol"]:
+            if (c["i"], c["j"], c["route"]) == (case["i"], case["j"], case["route"]):
                 ctx.violation(sig, desc, c)
     elif t == "far":
         r = _uncapped(eval_far, {"spec": case["spec"], "tier": case["tier"]})
